@@ -6,6 +6,7 @@ import (
 	"encoding/hex"
 	"encoding/json"
 	"fmt"
+	"strings"
 
 	sdk "github.com/cosmos/cosmos-sdk/types"
 	"github.com/wealdtech/go-merkletree/v2"
@@ -144,6 +145,13 @@ func getFile(w *world.World, ctx sdk.Context, merkle []byte, owner string, start
 	return w.App.StorageKeeper.GetFile(ctx, merkle, owner, start)
 }
 
+// proverListed: the file's prover list holds an entry for exactly this spelling of the prover (read from the list
+// entries themselves, "<prover>/<merkle>/<owner>/<start>", not through the chain's own lookup helper).
 func proverListed(f storagetypes.UnifiedFile, prover string) bool {
-	return f.ContainsProver(prover)
+	for _, pk := range f.Proofs {
+		if strings.HasPrefix(pk, prover+"/") {
+			return true
+		}
+	}
+	return false
 }
